@@ -48,7 +48,9 @@ class Options(MutableMapping, dict):
         # User options
         if user_options is not None:
             self.update(user_options)
-            self["useroptions"].update(user_options.keys())
+            # (a fresh set: when the user passes the options object of another
+            # instance, its own "useroptions" set must not be shared)
+            self["useroptions"] = set(user_options.keys()) - {"useroptions"}
 
     @classmethod
     def init_from_existing_options(
